@@ -244,6 +244,88 @@ func (r *Run) c12TCPConcurrent(v, G, per, Q, thr int) {
 	}
 }
 
+// c12TCPConcurrentStalled: several writers at once against a peer that does not read: every Write returns
+// (accepted or "write queue full"), nobody parks; afterwards the peer reads exactly the accepted frames.
+func (r *Run) c12TCPConcurrentStalled(v, G, Q int) {
+	g := r.rng
+	peer := newTCPPeer()
+	defer peer.shutdown()
+	conn, err := dialConn(peer.url(), uint8(v), Q, 1024)
+	if err != nil {
+		return
+	}
+	defer conn.Close(nil)
+	pc := peer.accept(2 * time.Second)
+	if pc == nil {
+		return
+	}
+	var mu sync.Mutex
+	accepted := make([][][]byte, G)
+	returned := 0
+	total := 0
+	for w := 0; w < G; w++ {
+		gg := g.Fork()
+		for i := 0; i < 6; i++ {
+			total++
+			go func(w, i int, body []byte) {
+				defer func() { recover() }() // a parked sender wakes up with a panic when the scenario closes the conn
+				p := &PK{Type: 3, Cmd: uint32(100 + w), Codec: 1, Vals: map[string]string{}, Body: append([]byte(fmt.Sprintf("w%d-%d|", w, i)), body...)}
+				ref, _ := refOfPK(v, p, 1024)
+				err := conn.Write(p.toPacket(), protocol.GzipSize(1024))
+				mu.Lock()
+				returned++
+				if err == nil {
+					accepted[w] = append(accepted[w], ref.encode())
+				}
+				mu.Unlock()
+			}(w, i, gg.Bytes(1<<20))
+		}
+	}
+	ok := waitUntil(6*time.Second, func() bool { mu.Lock(); defer mu.Unlock(); return returned == total })
+	cs := fmt.Sprintf("tcp concurrent writers, stalled peer, v%d G=%d Q=%d, 1 MiB incompressible frames, gzip threshold 1024", v, G, Q)
+	r.st.Evaluations++
+	r.count("c12.tcp.concurrent-stalled")
+	if !ok {
+		mu.Lock()
+		n := returned
+		mu.Unlock()
+		r.violate(Violation{What: fmt.Sprintf("%d of %d concurrent Write calls did not return within 6 s while the peer was stalled: a full write queue must be an error, not a blocked caller", total-n, total), Case: cs})
+		return
+	}
+	mu.Lock()
+	want := 2
+	for _, a := range accepted {
+		for _, f := range a {
+			want += len(f)
+		}
+	}
+	mu.Unlock()
+	got := readAll(pc, want, 10*time.Second)
+	if len(got) != want {
+		r.violate(Violation{What: fmt.Sprintf("peer received %d bytes, expected %d (handshake + accepted frames)", len(got), want), Case: cs})
+		return
+	}
+	seen := map[string]int{}
+	rest := got[2:]
+	for len(rest) > 0 {
+		_, n, verdict := refDecode(v, rest)
+		if verdict != "OK" {
+			r.violate(Violation{What: "peer stream is not a sequence of whole frames", Case: cs})
+			return
+		}
+		seen[string(rest[:n])]++
+		rest = rest[n:]
+	}
+	for _, a := range accepted {
+		for _, f := range a {
+			if seen[string(f)] != 1 {
+				r.violate(Violation{What: "an accepted frame was not transmitted exactly once", Case: cs})
+				return
+			}
+		}
+	}
+}
+
 func (r *Run) c12WS(v, Q, M int, concurrent bool) {
 	peer := newWSPeer()
 	defer peer.shutdown()
@@ -370,6 +452,7 @@ func runC12(r *Run) {
 	for i, c := range gs {
 		r.c12TCPConcurrent(1+i%2, c[0], c[1], c[2], c[3])
 	}
+	r.c12TCPConcurrentStalled(1, 8, 4)
 	r.c12WS(1, 16, 12, false)
 	r.c12WS(2, 4, 12, false)
 	r.c12WS(1, 256, 50, true)
